@@ -43,6 +43,7 @@ const (
 	Raw              = "raw"         // A = ECMAScript statements (js only; not modelled)
 	RejectUnless     = "rejunless"   // A=key V=value: return null unless bindings[A] equals V (a guard that looks at its candidate)
 	ThrowIf          = "throwif"     // A=key V=value: fail if bindings[A] equals V
+	Misuse           = "misuse"      // A = an ECMAScript statement that misuses a helper of the (extended) environment; modelled as a failure; the source is compiled for interpreter "ecmascript-ext"
 	InPlace          = "inplace"     // native only, first op: work on the very map that was given (the bs.Extend idiom of the repository's own native actions) instead of a copy
 )
 
@@ -150,7 +151,7 @@ func (p *Prog) JS() string {
 			}
 		case SetCycle:
 			fmt.Fprintf(&b, "var cyc2 = {name: \"a\"}; cyc2.self = cyc2; bs[%s] = cyc2;\n", js(o.A))
-		case Raw:
+		case Raw, Misuse:
 			b.WriteString(o.A)
 			b.WriteString("\n")
 		case MutateDeep:
@@ -258,7 +259,17 @@ func (p *Prog) NativeAction() core.Action {
 
 // Source returns an ActionSource for the ecmascript interpreter.
 func (p *Prog) Source() *core.ActionSource {
-	return &core.ActionSource{Interpreter: "ecmascript", Source: p.JS()}
+	return &core.ActionSource{Interpreter: p.InterpreterName(), Source: p.JS()}
+}
+
+// InterpreterName: programs that use the helpers of the extended environment need the extended interpreter.
+func (p *Prog) InterpreterName() string {
+	for _, o := range p.Ops {
+		if o.K == Misuse {
+			return "ecmascript-ext"
+		}
+	}
+	return "ecmascript"
 }
 
 // Result of the reference interpretation.
@@ -325,7 +336,7 @@ func (p *Prog) Model(bs map[string]interface{}) Result {
 			w = map[string]interface{}{}
 		case Emit:
 			out = append(out, clone(o.V))
-		case Throw, RetScalar, RetArray, Spin, RetGetter:
+		case Throw, RetScalar, RetArray, Spin, RetGetter, Misuse:
 			return Result{Err: true}
 		case RejectUnless:
 			if js(w[o.A]) != js(o.V) {
